@@ -305,3 +305,6 @@ func (s *Sched) TraceString() string {
 }
 
 func (s *Sched) Tasks() []*Task { return s.tasks }
+
+// At names the call the task is parked before (for choosers that steer by position).
+func (t *Task) At() string { return t.at }
